@@ -5,5 +5,8 @@ pub mod pool;
 
 mod groups;
 
+#[cfg(feature = "verif")]
+pub mod verif;
+
 #[cfg(test)]
 mod test_allocator;
